@@ -596,15 +596,15 @@ def rule_breakpoint_twins(chk, prog):
 
 def run(chk):
     prog = chk.load()
-    rule_pin_offer(chk, prog)
-    rule_pin_offer_twins(chk, prog)
-    rule_bookkeeping(chk, prog)
-    rule_temp_vis(chk, prog)
-    rule_checkpoint_dirs(chk, prog)
-    rule_pins_follow(chk, prog)
-    rule_pin_update_source(chk, prog)
-    rule_pin_refresh(chk, prog)
-    rule_connend_queue(chk, prog)
-    rule_pin_position(chk, prog)
-    rule_pin_directions(chk, prog)
-    rule_breakpoint_twins(chk, prog)
+    chk.guard(rule_pin_offer, chk, prog)
+    chk.guard(rule_pin_offer_twins, chk, prog)
+    chk.guard(rule_bookkeeping, chk, prog)
+    chk.guard(rule_temp_vis, chk, prog)
+    chk.guard(rule_checkpoint_dirs, chk, prog)
+    chk.guard(rule_pins_follow, chk, prog)
+    chk.guard(rule_pin_update_source, chk, prog)
+    chk.guard(rule_pin_refresh, chk, prog)
+    chk.guard(rule_connend_queue, chk, prog)
+    chk.guard(rule_pin_position, chk, prog)
+    chk.guard(rule_pin_directions, chk, prog)
+    chk.guard(rule_breakpoint_twins, chk, prog)
